@@ -494,12 +494,20 @@ theorem callback_error_does_not_affect_data (is : List InstCfg) (slots : List (L
       intro x
       cases o with
       | cberr => simpa [eraseErr, XSys.step] using ih { x with failNext := true }
+      | cancelAt j => simpa [eraseErr, XSys.step] using ih x
       | op o =>
         have h : (x.step (.op o)).sys = x.sys.step o := by cases o <;> rfl
         simp only [List.foldl_cons, eraseErr, List.filterMap_cons]
         rw [ih, h]
         rfl
   exact key xs _
+
+/-- Cancellation during aggregation (follow-up, seeded C08-8 / C02-1).  The current `pipeline.produce` never consults
+the context once the callbacks have run, so cancelling a collection's context while instrument `j` is being aggregated
+is not even a transition of the wrapped model: the state — data, error status, pending failure script — is unchanged,
+and therefore (`callback_error_does_not_affect_data`, whose erasure also drops `cancelAt`) every clause of the oracle
+holds of such histories exactly as without the cancellations. -/
+theorem cancel_during_aggregation_has_no_effect (x : XSys) (j : Nat) : x.step (.cancelAt j) = x := rfl
 
 /-- … hence every clause of the oracle holds of the data reported through failing callbacks exactly as without
 them (`twin_all_clauses` transported along `callback_error_does_not_affect_data`); and every collection has an error
